@@ -81,9 +81,9 @@ def corruptions(wd, seed):
     out.append(("frame-shifted", es, {"C18"}, "default frame shifted by one module"))
     es = json.loads(json.dumps(evs)); es[1]["rows"][30]["rects"][1]["w"] -= 4000; es[1]["rows"][30]["rects"][1]["h"] -= 4000; es[1]["rows"][30]["rects"][1]["x"] += 2000; es[1]["rows"][30]["rects"][1]["y"] += 2000
     out.append(("frame-shrinks", es, {"C18"}, "frame side shrinks at one version"))
-    fe = [{"ev": "FileOp", "id": 1, "tag": "file:svg:EFBIG:2", "renderer": "svg", "fault": "EFBIG", "len": 1000, "limit": 500, "ret": "Ok", "msg": "", "file": "prefix", "k": 500},
-          {"ev": "FileOp", "id": 2, "tag": "file:svg:none:0", "renderer": "svg", "fault": "none", "len": 1000, "limit": -1, "ret": "Ok", "msg": "", "file": "other", "k": 1000},
-          {"ev": "FileOp", "id": 3, "tag": "file:png:ENOENT:0", "renderer": "png", "fault": "ENOENT", "len": 1000, "limit": -1, "ret": "Panic", "msg": "", "file": "special", "k": -1}]
+    fe = [{"ev": "FileOp", "id": 1, "tag": "file:svg:EFBIG:2", "renderer": "svg", "fault": "EFBIG", "len": 1000, "limit": 500, "pre": "absent", "ret": "Ok", "msg": "", "file": "prefix", "k": 500},
+          {"ev": "FileOp", "id": 2, "tag": "file:svg:none:0", "renderer": "svg", "fault": "none", "len": 1000, "limit": -1, "pre": "absent", "ret": "Ok", "msg": "", "file": "other", "k": 1000},
+          {"ev": "FileOp", "id": 3, "tag": "file:png:ENOENT:0", "renderer": "png", "fault": "ENOENT", "len": 1000, "limit": -1, "pre": "absent", "ret": "Panic", "msg": "", "file": "special", "k": -1}]
     for i, (nm, desc) in enumerate([("file-ok-on-fault", "Ok returned although the write was cut short"), ("file-ok-wrong-bytes", "Ok returned with other bytes on disk"), ("file-panic", "panic instead of an error value")]):
         out.append((nm, [fe[i]], {"C19"}, desc))
     return out
